@@ -708,7 +708,7 @@ func runScenario(e *env, id int, c *Case) (obs *Obs, herr error) {
 			}
 			if o.Break {
 				breaks++
-				script = append(script, step{brk: true, eof: breaks%2 == 0, phase2: sub})
+				script = append(script, step{brk: true, eof: o.EOF, phase2: sub})
 			} else {
 				script = append(script, step{resp: respOf(o.N), phase2: sub, delay: time.Duration(o.DelayUS) * time.Microsecond})
 			}
@@ -893,7 +893,7 @@ func runScenario(e *env, id int, c *Case) (obs *Obs, herr error) {
 	for i, q := range c.Clients {
 		clients[i] = startClient(ctx, addr, q)
 		if c.Live {
-			time.Sleep(3 * time.Millisecond)
+			time.Sleep(time.Duration(3+c.LiveStaggerMS) * time.Millisecond)
 		}
 	}
 	// wait until every client is synced or has ended
@@ -957,7 +957,7 @@ func runScenario(e *env, id int, c *Case) (obs *Obs, herr error) {
 
 	// gnmi_cli, three styles per query
 	for i, s := range c.Cli {
-		for _, st := range []string{"flags", "proto", "file"} {
+		for _, st := range cliStyles(i) {
 			obs.Cli = append(obs.Cli, runCli(ctx, e.cliBin, dir, addr, i, s, st, obs.Files, obs.Protos))
 		}
 	}
